@@ -497,12 +497,19 @@ func (p *Params) coeffFromHalfByte(b int64) (int64, bool) {
 
 // RejBoundedPoly is Algorithm 31.
 func (p *Params) RejBoundedPoly(seed []byte) (a Poly) {
+	a, _ = p.rejBounded(seed)
+	return
+}
+
+// rejBounded also reports how many XOF bytes were read.
+func (p *Params) rejBounded(seed []byte) (a Poly, n int) {
 	h := sha3.NewShake256()
 	_, _ = h.Write(seed)
 	j := 0
 	var z [1]byte
 	for j < N {
 		_, _ = h.Read(z[:])
+		n++
 		if v, ok := p.coeffFromHalfByte(int64(z[0] & 15)); ok {
 			a[j] = mod(v)
 			j++
